@@ -481,7 +481,7 @@ def show(e, depth=0):
     if t == "icall":
         return "(%s)(%s)" % (show(e[1], d), ", ".join(show(a, d) for a in e[2]))
     if t == "agg":
-        if e[3]:
+        if len(e) > 3 and e[3]:
             return "%s{%s}" % (e[1], ", ".join("%s: %s" % (n, show(a, d)) for n, a in zip(e[3], e[2])))
         return "%s(%s)" % (e[1], ", ".join(show(a, d) for a in e[2]))
     if t == "discr":
@@ -872,3 +872,92 @@ def origin_calls(body, operand, pred, eb=None, limit=400):
                 if "place" in rv:
                     work.append(rv["place"]["local"])
     return out
+
+
+# --------------------------------------------------------------------------------------
+# success-path value of checked arithmetic (behaviour-preserving rewrites of `a * b + c`)
+
+
+def success_value(p, e, depth=0):
+    """Rewrite an expression to the value it has on the all-checks-pass path:
+       Try::branch(x) as Continue .0 -> x ; Option::ok_or(o, _) / ok_or_else -> o ;
+       checked_mul/add/sub(a, b) -> a*b / a+b / a-b ; Option::and_then/map(o, closure) -> closure(o);
+       calls of local closures / functions whose body is one return expression are inlined."""
+    if depth > 12:
+        return e
+    t = e[0]
+    rec = lambda x: success_value(p, x, depth + 1)
+    if t == "field" and e[2] == "0" and e[1][0] == "variant" and e[1][2] in ("Continue", "Some", "Ok"):
+        inner = e[1][1]
+        if inner[0] == "call" and (inner[1].endswith("Try>::branch") or inner[1].endswith("Try::branch")):
+            return rec(inner[2][0])
+        return rec(inner)
+    if t == "call":
+        name = e[1]
+        args = e[2]
+        short = name.rsplit("::", 1)[-1]
+        if short in ("ok_or", "ok_or_else") and "Option" in name:
+            return rec(args[0])
+        if short in ("checked_mul", "checked_add", "checked_sub") and len(args) == 2:
+            op = {"checked_mul": "Mul", "checked_add": "Add", "checked_sub": "Sub"}[short]
+            return ("bin", op, rec(args[0]), rec(args[1]))
+        if short in ("and_then", "map") and ("Option" in name or "Result" in name) and len(args) == 2:
+            clo = args[1]
+            if clo[0] == "agg" and clo[1].startswith("closure:"):
+                body = p.bodies.get(clo[1][len("closure:"):])
+                if body is not None:
+                    return rec(inline_body(p, body, [clo, rec(args[0])], clo))
+        # call of a local closure through Fn::call(&closure, (args,))
+        if short in ("call", "call_once", "call_mut") and len(args) == 2 and args[0][0] == "agg" and args[0][1].startswith("closure:"):
+            body = p.bodies.get(args[0][1][len("closure:"):])
+            tup = args[1]
+            if body is not None and tup[0] == "agg" and tup[1] == "tuple":
+                return rec(inline_body(p, body, [args[0]] + [rec(a) for a in tup[2]], args[0]))
+        if name in p.bodies and p.bodies[name].kind == "Closure":
+            body = p.bodies[name]
+            if len(args) == 2 and args[1][0] == "agg" and args[1][1] == "tuple":
+                return rec(inline_body(p, body, [args[0]] + [rec(a) for a in args[1][2]], args[0]))
+        return ("call", name, tuple(rec(a) for a in args))
+    if t == "bin":
+        return ("bin", e[1], rec(e[2]), rec(e[3]))
+    if t in ("un", "cast"):
+        return (t, e[1], rec(e[2])) + tuple(e[3:])
+    if t == "field":
+        return ("field", rec(e[1]), e[2])
+    return e
+
+
+def inline_body(p, body, actuals, closure_agg):
+    """return expression of `body` with parameters replaced by `actuals` (closure env first) and
+    captured variables replaced by the closure aggregate's capture operands"""
+    eb = ExprBuilder(body)
+    ret = eb.local(0)
+    caps = {}
+    if closure_agg is not None and closure_agg[0] == "agg" and len(closure_agg) > 3:
+        for nm, op in zip(closure_agg[3], closure_agg[2]):
+            caps[nm.lstrip("*")] = op
+
+    def sub(e):
+        t = e[0]
+        if t == "arg" and isinstance(e[1], int) and 1 <= e[1] <= len(actuals):
+            return actuals[e[1] - 1]
+        if t == "upvar":
+            return caps.get(e[1].lstrip("*"), e)
+        if t == "field":
+            return ("field", sub(e[1]), e[2])
+        if t == "variant":
+            return ("variant", sub(e[1]), e[2])
+        if t == "idx":
+            return ("idx", sub(e[1]), sub(e[2]))
+        if t == "bin":
+            return ("bin", e[1], sub(e[2]), sub(e[3]))
+        if t in ("un", "cast"):
+            return (t, e[1], sub(e[2])) + tuple(e[3:])
+        if t == "call":
+            return ("call", e[1], tuple(sub(a) for a in e[2]))
+        if t == "agg":
+            return ("agg", e[1], tuple(sub(a) for a in e[2]), e[3] if len(e) > 3 else ())
+        if t == "len":
+            return ("len", sub(e[1]))
+        return e
+    return sub(ret)
